@@ -74,6 +74,11 @@ func Setup(env *runner.Env) error {
 			Seeds = append(Seeds, Input{Name: fmt.Sprintf("crafted#multi-track-encrypted%d", i), Kind: "file-shrunk", Data: v})
 		}
 	}
+	for _, v := range fragmentAddressingSeeds(cor) {
+		if len(v.data) <= MaxFileLen {
+			Seeds = append(Seeds, Input{Name: v.name, Kind: "file-shrunk", Data: v.data})
+		}
+	}
 	for _, b := range cor.Boxes {
 		Seeds = append(Seeds, Input{Name: b.Name, Kind: b.Kind, Type: b.Type, Data: b.Data})
 	}
